@@ -1,6 +1,7 @@
 """C07 — ensemble members are isolated; controls are shared exactly per scenario tree."""
 import json
 import math
+import os
 from fractions import Fraction
 
 import casadi as ca
@@ -122,7 +123,7 @@ def gen_tree_case(rng):
         for f in range(nf):
             offs[2][f][:2] = offs[0][f][:2]              # coinciding prefix
     planning = rng.random() < 0.3
-    return {"k": "tree", "E": E, "seg_lens": seg_lens, "nbt": nbt, "bts": [str(b) for b in bts], "kk": k,
+    return {"k": "tree", "own_grid": rng.random() < 0.4, "E": E, "seg_lens": seg_lens, "nbt": nbt, "bts": [str(b) for b in bts], "kk": k,
             "nf": nf, "offs": [[[str(x) for x in v] for v in mem] for mem in offs], "planning": planning,
             "mode": rng.choice(["tree", "tree", "default", "planning_only"])}
 
@@ -147,8 +148,13 @@ def tree_problem(c):
         vals.append(d)
     spec = {"times": times, "states": [], "algebraics": ["y"], "controls": ["u", "w"], "constant_inputs": cins,
             "parameters": [], "ensemble_size": E, "theta": "1",
-            "residual": [["-", ["v", "y"], ["+", ["v", "u"], ["v", cins[0]]]]], "initial_residual": [],
+            "residual": [["-", ["v", "y"], ["+", ["+", ["v", "u"], ["v", "w"]], ["v", cins[0]]]]], "initial_residual": [],
             "param_values": [{} for _ in range(E)], "constant_input_values": vals}
+    if c.get("own_grid") and n >= 3:
+        # control w lives on a coarser grid of its own (interpolated onto the collocation times)
+        keep = [0] + [i for i in range(1, n - 1) if i % 2 == 0] + [n - 1]
+        if len(keep) < n:
+            spec["var_times"] = {"w": [times[i] for i in keep]}
     mix = []
     if c["mode"] == "tree":
         mix = [ControlTreeMixin]
@@ -183,7 +189,39 @@ def observe_tree(c):
     for m in range(c["E"]):
         f = ca.Function("i", [p.solver_input], [p.state_vector("y", m)])
         sidx[m] = [int(round(float(x))) for x in np.array(f(ca.DM(list(range(nx))))).ravel()]
+    # which decision variables each constraint row reads
+    sp = ca.jacobian(nlp["g"], nlp["x"]).sparsity()
+    rws, cls = sp.get_triplet()
+    deps = {}
+    for r_, c_ in zip(rws, cls):
+        deps.setdefault(int(r_), set()).add(int(c_))
+    observe_tree.deps = deps
     return idx, branches, sidx, nx
+
+
+def row_isolation(E, idx, sidx, deps):
+    """a constraint row that reads member m's state may read controls only through member m's own
+    control entries (shared or not), and never another member's state"""
+    out = []
+    owner = {}
+    for m in range(E):
+        for i in sidx[m]:
+            owner[i] = m
+    ctrl_all = set()
+    for k, v in idx.items():
+        ctrl_all |= set(v)
+    for r, cols in deps.items():
+        ms = {owner[c] for c in cols if c in owner}
+        if len(ms) > 1:
+            out.append("constraint row %d reads the states of members %s" % (r, sorted(ms)))
+        elif len(ms) == 1:
+            m = next(iter(ms))
+            mine = set(idx[("u", m)]) | set(idx[("w", m)])
+            foreign = sorted((cols & ctrl_all) - mine)
+            if foreign:
+                out.append("constraint row %d of member %d reads control entries %s that are not among member %d's own %s" % (
+                    r, m, foreign, m, sorted(mine)))
+    return out
 
 
 def seg_of_time(c):
@@ -249,6 +287,16 @@ def classes_from_indices(idx, E, n, var):
     return out
 
 
+def tix(c, var):
+    """time indices on which the control has decision variables (its own grid)"""
+    n = sum(c["seg_lens"])
+    if var == "w" and c.get("own_grid") and n >= 3:
+        keep = [0] + [i for i in range(1, n - 1) if i % 2 == 0] + [n - 1]
+        if len(keep) < n:
+            return keep
+    return list(range(n))
+
+
 def tree_property(c, idx, branches, nx):
     """share iff same branch; branches only split; <= k children; all indices of distinct
     (variable, time, class) distinct and inside the control block"""
@@ -258,9 +306,9 @@ def tree_property(c, idx, branches, nx):
     problems_ = []
     seen = {}
     for var in ("u", "w"):
-        for i in range(n):
+        for pos, i in enumerate(tix(c, var)):
             for m in range(E):
-                key = idx[(var, m)][i]
+                key = idx[(var, m)][pos]
                 tag = (var, i)
                 if key in seen and seen[key] != tag:
                     problems_.append("index %d used for %s and %s" % (key, seen[key], tag))
@@ -277,12 +325,12 @@ def tree_property(c, idx, branches, nx):
         for var in ("u", "w"):
             if c["planning"] and var != "u":
                 continue
-            for i in range(n):
+            for pos, i in enumerate(tix(c, var)):
                 L = segs[i]
                 for a in range(E):
                     for b in range(E):
                         same_branch = any(len(pth) == L and a in mem and b in mem for pth, mem in branches.items())
-                        share = idx[(var, a)][i] == idx[(var, b)][i]
+                        share = idx[(var, a)][pos] == idx[(var, b)][pos]
                         if same_branch != share:
                             problems_.append("%s t=%d members %d,%d: same branch %s but share %s" % (var, i, a, b, same_branch, share))
         # members whose forecasts coincide up to branching time bt[L+1] are in the same depth-L branch
@@ -362,6 +410,7 @@ def run(ctx):
                           what="control discretisation raised %s" % type(e).__name__)
             continue
         rows.append((c, idx, branches, sidx, nx))
+        c["_deps"] = observe_tree.deps
     tree_rows = [(r, dist_table(r[0])) for r in rows if r[0]["mode"] == "tree"]
     tree_rows = [(r, t) for r, t in tree_rows if t is not None]
     models = core.eval_terms(ID + "tree", ["Xq", "ControlTree"], [tree_term(r[0], t) for r, t in tree_rows], shard=60) if tree_rows else []
@@ -374,6 +423,7 @@ def run(ctx):
         ctx.count("mode_" + c["mode"] + ("_planning" if c["planning"] and c["mode"] == "tree" else ""))
         ctx.count("k_%d" % c["kk"])
         probs = tree_property(c, idx, branches, nx)
+        probs += row_isolation(E, idx, sidx, c.pop("_deps", {}))[:3]
         # states are never shared
         for a in range(E):
             for b in range(a + 1, E):
@@ -418,3 +468,62 @@ def run(ctx):
                 ctx.violation("tree/model-mismatch", rep, no_input=True, what="scenario tree differs from the Gallina model (sharing rule still holds)")
             elif len(ctx.samples) < 3 and E >= 3:
                 ctx.sample({"case": c, "branches": rep["branches"], "u_indices": {m: idx[("u", m)] for m in range(E)}})
+
+
+# ---- member data through the CSV mixin: every member reads its own folder only -------------------------------
+def csv_member_isolation(ctx):
+    """CSV ensemble folders in which only some members have an initial_state.csv (and every member its own
+    series): history(m) must come from member m's files alone"""
+    from concurrent.futures import ProcessPoolExecutor
+    from . import c12
+    rng = ctx.rng
+    specs = []
+    for _ in range(ctx.n(5, 120)):
+        c = c12.gen_case(rng, "opt", "csv")
+        E = rng.choice([2, 3, 3])
+        c["E"] = E
+        base = c["series"]["0"]
+        c["series"] = {}
+        for m in range(E):
+            s = json.loads(json.dumps(base))
+            s["x"] = [str(Fraction(rng.randint(-12, 12), 4))] + s["x"][1:]
+            s["q"] = [str(Fraction(rng.randint(-8, 8), 4)) for _ in s["q"]]
+            c["series"][str(m)] = s
+        pat = [rng.random() < 0.5 for _ in range(E)]
+        if all(pat) or not any(pat):
+            pat[rng.randrange(E)] = not pat[0]
+        c["initial_state"] = [{"x": str(Fraction(rng.randint(-12, 12), 4))} if has else None for has in pat]
+        c["ops"] = []
+        specs.append(c)
+    with ProcessPoolExecutor(max_workers=8) as ex:
+        results = list(ex.map(c12.safe_run, specs))
+    for c, res in zip(specs, results):
+        ctx.case_done(core.fingerprint(["csv-members", c["E"], [i is not None for i in c["initial_state"]]]), True)
+        ctx.count("csv_member_cases")
+        if "error" in res:
+            ctx.violation("isolation/csv-exception", {"spec": c, "error": res["error"]}, no_input="rtctools" not in res["error"],
+                          what="a CSV ensemble folder could not be loaded: %s" % res["error"][:120])
+            continue
+        for m in range(c["E"]):
+            ini = c["initial_state"][m]
+            want = float(Fraction(ini["x"])) if ini else float(Fraction(c["series"][str(m)]["x"][0]))
+            got = res["history"][str(m)].get("x")
+            if got is None or abs(got[1][-1] - want) > 1e-9 or got[0][-1] != 0.0:
+                ctx.violation("isolation/csv-member-history", {"spec": c, "member": m, "history_x": got, "expected_x_t0": want,
+                                                               "has_initial_state_file": ini is not None},
+                              what="member %d's initial condition is %s; its own files say %s (initial_state.csv %s)" % (
+                                  m, got, want, "present" if ini else "absent"))
+            gq_ = res["history"][str(m)].get("q")
+            wq = float(Fraction(c["series"][str(m)]["q"][0]))
+            if gq_ is None or abs(gq_[1][-1] - wq) > 1e-9:
+                ctx.violation("isolation/csv-member-history", {"spec": c, "member": m, "history_q": gq_, "expected": wq},
+                              what="member %d's input history is %s; its own file says %s" % (m, gq_, wq))
+
+
+_run_core = run
+
+
+def run(ctx):  # noqa: F811
+    _run_core(ctx)
+    if not os.environ.get("VERIF_REPLAY"):
+        csv_member_isolation(ctx)
